@@ -41,7 +41,7 @@ RULE = ("schedules over {async_subscribe(svc) started, NOTIFY arrives, SUBSCRIBE
 EXHAUSTIVE = {"quick": False, "thorough": True}
 ASSUMPTIONS = [
     "handle_notify and the tail of async_subscribe run without suspending (no await that yields inside them)",
-    "one subscribe call per service, SIDs granted at most once (the property speaks of the SUBSCRIBE that creates the subscription)",
+    "one subscribe call at a time per service, none after a grant (a failed call may be repeated); SIDs granted at most once",
     "property sets are well-formed XML naming each variable at most once; ASCII values",
 ]
 TRUSTED = ["C11: asyncio FIFO scheduling and the parked-future requester stand for the network"]
@@ -269,6 +269,20 @@ def exhaustive(ctx: Ctx):
         ns = [notify(sid, carry(j, sub)) for j, (sid, sub) in enumerate(choice)]
         for seq in interleavings(ns, grant(0, S0), ["respond", 1, ["resp", 500, None, None]]):
             out.append({"ops": seq})
+    # the SUBSCRIBE fails (refused / unreachable / no SID) with NOTIFYs backlogged, then is repeated and granted the same SID:
+    # all positions of two NOTIFYs around {failure, second start, grant}
+    for fail in (["resp", 500, None, None], ["connerr"], ["resp", 200, None, None]):
+        for subs in itertools.product(SUBSETS, repeat=2):
+            ns = [notify(S0, carry(j, sub)) for j, sub in enumerate(subs)]
+            ctl = [["respond", 0, fail], ["start", 0, 600], grant(0, S0)]
+            for pos in itertools.combinations(range(5), 2):     # where the two NOTIFYs sit among the 5 events
+                seq, ci, ni = [], 0, 0
+                for k in range(5):
+                    if k in pos:
+                        seq.append(ns[ni]); ni += 1
+                    else:
+                        seq.append(ctl[ci]); ci += 1
+                out.append({"ops": [["start", 0, 1800]] + seq})
     return out
 
 
@@ -313,14 +327,19 @@ def rand_recipe(rng):
         kids = [[rng.choice(["", "", "urn:q"]), d["name"], rng.choice(TEXTS[d["type"]])] for d in pool[:rng.randrange(0, len(pool) + 1)]]
         if rng.randrange(6) == 0:
             kids.append(["", "Zed", "1"])
-        if rng.randrange(15) == 0 and kids:   # a variable named twice: outside the domain (judging stops there)
+        if rng.randrange(15) == 0 and kids:   # a variable named twice (same tag: the last text counts)
             kids.append(list(kids[0]))
         nt = NT_OK if rng.randrange(10) else rng.choice([None, "x"])
         nts = NTS_OK if rng.randrange(10) else rng.choice([None, "x"])
-        events.append(notify(sid if rng.randrange(12) else None, kids, nt, nts, rng.choice(["", "\n", "\0"])))
+        if rng.randrange(40) == 0:
+            events.append(["notify", nt, nts, sid, "#", ""])      # not XML: compared, judging stops
+        else:
+            events.append(notify(sid if rng.randrange(12) else None, kids, nt, nts, rng.choice(["", "\n", "\0"])))
     rng.shuffle(events)
-    if rng.randrange(10) == 0:
-        events.insert(rng.randrange(len(events) + 1), ["start", rng.randrange(nsvc), 60])   # a second start: outside the domain
+    if rng.randrange(6) == 0:   # a repeated subscribe: in the domain after a failure, outside it after a grant / while one is parked
+        i = rng.randrange(nsvc)
+        events.insert(rng.randrange(len(events) + 1), ["start", i, 60])
+        events.insert(rng.randrange(len(events) + 1), ["respond", i, ["resp", 200, rng.choice(sids), None]])
     return {"vars": svc_vars, "ops": ops + events}
 
 
@@ -333,6 +352,16 @@ CORPUS = [
     {"ops": [["start", 0, 1800], notify(S0, [["", "A", "1"]]), ["respond", 0, ["resp", 500, None, None]], notify(S0, [["", "A", "2"]])]},
     {"ops": [["start", 0, 1800], notify(S0, [["", "A", "1"]]), ["respond", 0, ["connerr"]], ["start", 1, 5], notify(S0, [["", "A", "2"]]),
              ["respond", 1, ["resp", 200, None, None]]]},
+    # round 2: the SUBSCRIBE fails after NOTIFYs were backlogged; the backlog entry stays (keyed by SID) and a LATER subscription
+    # that is granted the same SID replays it: by the text those NOTIFYs are then early NOTIFYs of the granted SID (judged so)
+    {"ops": [["start", 0, 1800], notify(S0, [["", "A", "1"], ["", "B", "x"]]), ["respond", 0, ["resp", 500, None, None]],
+             notify(S0, [["", "A", "2"]]), ["start", 0, 1800], notify(S0, [["", "C", "1"]]), grant(0, S0), notify(S0, [["", "A", "3"]])]},
+    {"ops": [["start", 0, 1800], notify(S0, [["", "A", "7"]]), ["respond", 0, ["connerr"]], ["start", 1, 1800], grant(1, S0),
+             ["start", 0, 300], ["respond", 0, ["resp", 200, S1, None]]]},
+    # a malformed early NOTIFY (not XML): answered 200 and stored; the replay raises ParseError out of async_subscribe AFTER the
+    # SID was registered, the backlog entry stays (compared with the model; outside the property's domain, not judged)
+    {"ops": [["start", 0, 1800], notify(S0, [["", "A", "1"]]), ["notify", NT_OK, NTS_OK, S0, "#", ""], notify(S0, [["", "A", "2"]]),
+             grant(0, S0), notify(S0, [["", "B", "live"]]), ["notify", NT_OK, NTS_OK, S0, "#", ""]]},
     # early NOTIFY with bad headers is not stored
     {"ops": [["start", 0, 1800], notify(S0, [["", "A", "1"]], nt=None), notify(S0, [["", "A", "2"]], nts="x"), notify(None, [["", "A", "3"]]), grant(0, S0)]},
 ]
